@@ -179,8 +179,24 @@ def compare_documents(tables, texts):
         spans.append((len(allops), len(ops)))
         allops.extend(ops)
         reals.append(real)
-    out = common.run_model(tables.loaded_lines + allops)
-    out = out[len(tables.loaded_lines):]
+    # the driver keeps the loaded maps in its process state: every batch starts with the WMAP lines
+    out = []
+    batch, nb = [], 0
+    groups = []
+    for (a, n) in spans:
+        if nb + n > 250000 and batch:
+            groups.append(batch)
+            batch, nb = [], 0
+        batch.append((a, n))
+        nb += n
+    if batch:
+        groups.append(batch)
+    for g in groups:
+        ops = []
+        for (a, n) in g:
+            ops.extend(allops[a:a + n])
+        res = common.run_model(tables.loaded_lines + ops, chunk=10 ** 9)
+        out.extend(res[len(tables.loaded_lines):])
     dis = []
     nseg = 0
     for di, ((a, n), real) in enumerate(zip(spans, reals)):
